@@ -131,7 +131,7 @@ Section Body2.
                 = run_obs (step2 rate) v2_end_marker (epoch_lines_v2 (e2_t e) ids ++ X) s cache0).
     { rewrite Eh. cbn [app cont2]. rewrite (first_is_marker _ _ _ W). reflexivity. }
     rewrite K. rewrite Lid in *.
-    rewrite (epoch_head_run rate Y fmo fd fh fmi fsec HY (e2_t e) ids X s cache0 I1 W Hc Fc ltac:(rewrite Lid; exact Fn) Nid Fid TX).
+    rewrite (epoch_head_run rate Y fmo fd fh fmi fsec (e2_t e) ids X s cache0 I1 W Hc Fc ltac:(rewrite Lid; exact Fn) Nid Fid TX).
     rewrite Lid. cbn [c_acc cache0]. fold (einfo_of2 e).
     set (c1 := {| c_epoch := Some (einfo_of2 e); c_sats := Some (map fix3 ids); c_len := List.length sats; c_acc := [] |}).
     unfold X, epoch_rows2. fold sats. destruct (e_sec (einfo_of2 e)) as [q|] eqn:Es.
@@ -245,7 +245,7 @@ Proof.
   destruct Ok as [Tm [Lm [Tne [_ [Ft [Fn [Wf [HY [Fy [Fs [Xok Fe]]]]]]]]]]].
   unfold parse_v2, render_file2. rewrite Hh, run_obs_cont2.
   rewrite (body2_run rate (ep_y (f2_first f)) (ep_mo (f2_first f)) (ep_d (f2_first f)) (ep_h (f2_first f)) (ep_mi (f2_first f))
-             (dec_value (ep_s7 (f2_first f)) 7) HY (f2_marker f) (f2_types f) Tne (f2_epochs f) (hdr_state2 f) cache0);
+             (dec_value (ep_s7 (f2_first f)) 7) (f2_marker f) (f2_types f) Tne (f2_epochs f) (hdr_state2 f) cache0);
     [| | exact Fe].
   2:{ unfold inv2, inv2_meta, meta_str. cbn [hdr_state2 meta num_types types_all]. rewrite hmeta_first, hmeta_marker.
       repeat split. apply last_inv_of_m. cbn [hdr_state2 meta]. apply (hmeta_last _ _ _ _ HY Xok). }
